@@ -18,6 +18,9 @@ type c06Attr struct {
 	decl       int    // declared length, -1 = len(val)
 	tag        string // non-empty: this attribute was made malformed by that fault
 	last       bool   // must stay the last attribute (overrun)
+	apified    bool     // MP_(UN)REACH rewritten with ADD-PATH path identifiers
+	pfx        [][]byte // ... its prefixes (wire form, without identifier)
+	ids        []uint32 // ... and their path identifiers
 }
 
 type c06Fault struct {
@@ -37,6 +40,9 @@ type c06Msg struct {
 	tail     []byte
 	faults   []c06Fault
 	framing  bool // a fault changed where fields start: per-fault judgements are off
+	ap4, ap6 bool     // encoded for a session with ADD-PATH receive for IPv4 / IPv6 unicast
+	nlriID   []uint32 // path identifiers of nlri / wd (used when ap4)
+	wdID     []uint32
 	shape    string // number of AS_PATH segments of the base message
 }
 
@@ -62,14 +68,24 @@ func (a *c06Attr) bytes() []byte {
 
 func (m *c06Msg) body() []byte {
 	var w, a, n []byte
-	for _, p := range m.wd {
-		w = append(w, p...)
+	id := func(l []uint32, i int) []byte {
+		if !m.ap4 {
+			return nil
+		}
+		v := uint32(0)
+		if i < len(l) {
+			v = l[i]
+		}
+		return []byte{byte(v >> 24), byte(v >> 16), byte(v >> 8), byte(v)}
+	}
+	for i, p := range m.wd {
+		w = append(append(w, id(m.wdID, i)...), p...)
 	}
 	for i := range m.attrs {
 		a = append(a, m.attrs[i].bytes()...)
 	}
-	for _, p := range m.nlri {
-		n = append(n, p...)
+	for i, p := range m.nlri {
+		n = append(append(n, id(m.nlriID, i)...), p...)
 	}
 	wl := len(w) + m.wdDelta
 	tl := len(a) + m.totDelta
@@ -212,6 +228,9 @@ func c06PickPos(r *vRand, n int) (int, string) {
 
 // the IPv6 prefixes (wire form) of an untouched MP_REACH_NLRI / MP_UNREACH_NLRI built by c06Base
 func c06MpPrefixes(a *c06Attr) [][]byte {
+	if a.apified {
+		return a.pfx
+	}
 	v := a.val
 	switch a.typ {
 	case 14:
@@ -237,6 +256,58 @@ func c06MpPrefixes(a *c06Attr) [][]byte {
 		v = v[n:]
 	}
 	return out
+}
+
+// path identifiers of the prefixes of c06MpPrefixes (all 0 without ADD-PATH)
+func c06MpIDs(a *c06Attr) []uint32 {
+	if a.apified {
+		return a.ids
+	}
+	return make([]uint32, len(c06MpPrefixes(a)))
+}
+
+func c06PathID(r *vRand) uint32 {
+	return []uint32{0, 1, 1, 2, 7, 300, 65536, 4294967295}[r.intn(8)]
+}
+
+// c06AddPathify re-encodes a generated message for a session on which ADD-PATH receive is negotiated
+// for IPv4 unicast (ap4: NLRI and WITHDRAWN ROUTES fields) and / or IPv6 unicast (ap6: the intact
+// MP_REACH / MP_UNREACH attributes): every prefix gets a 4-octet path identifier, zero or not.
+func c06AddPathify(r *vRand, m *c06Msg, ap4, ap6 bool) {
+	m.ap4, m.ap6 = ap4, ap6
+	if ap4 {
+		m.nlriID, m.wdID = nil, nil
+		for range m.nlri {
+			m.nlriID = append(m.nlriID, c06PathID(r))
+		}
+		for range m.wd {
+			m.wdID = append(m.wdID, c06PathID(r))
+		}
+	}
+	if ap6 {
+		for i := range m.attrs {
+			a := &m.attrs[i]
+			if a.tag != "" || a.apified || (a.typ != 14 && a.typ != 15) {
+				continue
+			}
+			pfx := c06MpPrefixes(a)
+			head := 3
+			if a.typ == 14 {
+				head = 21
+			}
+			if len(a.val) < head {
+				continue
+			}
+			v := append([]byte{}, a.val[:head]...)
+			var ids []uint32
+			for _, p := range pfx {
+				id := c06PathID(r)
+				ids = append(ids, id)
+				v = append(append(v, byte(id>>24), byte(id>>16), byte(id>>8), byte(id)), p...)
+			}
+			a.val, a.pfx, a.ids, a.apified = v, pfx, ids, true
+		}
+	}
 }
 
 var c06UnknownTypes = []int{11, 12, 13, 19, 20, 21, 24, 27, 28, 30, 31, 33, 39, 41, 99, 128, 200, 254, 255}
